@@ -144,6 +144,18 @@ fn refine(d: &crate::engine_b::Diag, spec: &crate::spec::GrammarSpec, cfg: &BCon
     if (d.code == "E0428") && kinds_in_two_rules {
         return "|production-kind-used-in-two-rules";
     }
+    // a rule spelled like a generated choice name (`c1`, `c2`, ... in a lower-case grammar): the
+    // generator makes choice names unique before case conversion, so the action of the
+    // alternative that refers to rule `c1` and the action of the first unnamed alternative are
+    // both `<rule>_c1`
+    if d.code == "E0428" {
+        if let Some(suffix) = name.rsplit('_').next() {
+            let generated_like = suffix.len() >= 2 && suffix.starts_with('c') && suffix[1..].chars().all(|c| c.is_ascii_digit());
+            if generated_like && spec.rules.iter().any(|r| r.name == suffix) {
+                return "|rule-named-like-generated-choice-name";
+            }
+        }
+    }
     if d.code == "E0255" && name == "C" && cfg.loc_info && spec.rules.iter().any(|r| r.name == "C") {
         return "|rule-named-C-with-loc-info";
     }
